@@ -138,6 +138,7 @@ type vC19Run struct {
 	userData bool
 	secrets  map[string][]string // class -> strings that must never appear in a request
 	lastSeen int
+	started  bool
 	stopped  bool
 	// exclusive: the server runs while no other server of the test does, every request recorded from
 	// startIdx on is its own (needed when no instance-id file exists to attribute requests by)
@@ -237,6 +238,19 @@ func (r *vC19Run) waitMore(window time.Duration) {
 	}
 }
 
+// vC19Companions: other settings that stand in the same configuration file next to telemetry.*
+func vC19Companions(other string) string {
+	switch other {
+	case "activityOn":
+		return "activity.stream:\n  enabled: true\n"
+	case "activityOff":
+		return "activity.stream:\n  enabled: false\n"
+	case "full":
+		return "activity.stream:\n  enabled: true\n  publish.timeout: 1m\nstreams:\n  compact.enabled: true\n  concurrency.control: true\nbatch.max:\n  messages: 10\nmetadata.cache.max.age: 1m\n"
+	}
+	return ""
+}
+
 func (r *vC19Run) loadConfig() error {
 	file, env, prog := vStr(r.route, "file"), vStr(r.route, "env"), vStr(r.route, "prog")
 	hasFile := vBool(r.route, "hasFile")
@@ -256,6 +270,7 @@ func (r *vC19Run) loadConfig() error {
 		if tel != "" {
 			y += "telemetry:\n" + tel
 		}
+		y += vC19Companions(vStrDef(r.route, "other", "none"))
 		path = filepath.Join(storagePath, r.name+".yaml")
 		if err := os.WriteFile(path, []byte(y), 0o644); err != nil {
 			return err
@@ -285,24 +300,36 @@ func (r *vC19Run) loadConfig() error {
 	cfg.NATS.Password = "natspass-" + r.name
 	cfg.LogSilent = true
 	cfg.Port = 0
-	// ... and, on the programmatic routes, the telemetry settings
-	switch {
-	case prog != "unset" && ivalBy == "prog" && ival == "zero":
-		// a hand-built telemetry section: only the switch is given
-		cfg.Telemetry = TelemetryConfig{Enabled: prog == "true"}
-	default:
-		if ival != "default" && ivalBy == "prog" {
-			cfg.Telemetry.IntervalSeconds = seconds[ival]
+	// ... and, on the programmatic routes, the telemetry settings - assigned before server.New(cfg) or
+	// between server.New(cfg) and Start() (the Config is shared by pointer: both are "programmatic config")
+	applyProg := func() {
+		switch {
+		case prog != "unset" && ivalBy == "prog" && ival == "zero":
+			// a hand-built telemetry section: only the switch is given
+			cfg.Telemetry = TelemetryConfig{Enabled: prog == "true"}
+		default:
+			if ival != "default" && ivalBy == "prog" {
+				cfg.Telemetry.IntervalSeconds = seconds[ival]
+			}
+			if prog != "unset" {
+				cfg.Telemetry.Enabled = prog == "true"
+			}
 		}
-		if prog != "unset" {
-			cfg.Telemetry.Enabled = prog == "true"
-		}
+	}
+	progAt := vStrDef(r.route, "progAt", "before")
+	if progAt == "before" {
+		applyProg()
 	}
 	if vStr(r.route, "idfile") == "unusable" {
 		// <data dir>/.instance_id can be neither read nor written: it is a directory
 		if err := os.MkdirAll(filepath.Join(cfg.DataDir, ".instance_id"), 0o755); err != nil {
 			return err
 		}
+	}
+	cfg.Clustering.ServerID = "srvid-" + r.name
+	r.srv = New(cfg)
+	if progAt == "between" {
+		applyProg()
 	}
 	r.cfg = cfg
 	r.secrets["creds"] = []string{cfg.NATS.User, cfg.NATS.Password}
@@ -328,8 +355,16 @@ func (r *vC19Run) step(a string) map[string]interface{} {
 			obs["err"] = "no config"
 			break
 		}
-		r.cfg.Clustering.ServerID = "srvid-" + r.name
-		r.srv = vOneNodeServer(r.t, r.cfg)
+		if err := r.srv.Start(); err != nil {
+			r.t.Fatalf("INCONCLUSIVE: server did not start: %v", err)
+		}
+		r.started = true
+		for deadline := time.Now().Add(30 * time.Second); !(r.srv.IsRunning() && r.srv.getRaft() != nil && r.srv.IsLeader()); {
+			if time.Now().After(deadline) {
+				r.t.Fatalf("INCONCLUSIVE: server did not become metadata leader")
+			}
+			time.Sleep(2 * time.Millisecond)
+		}
 		r.secrets["addr"] = append(r.secrets["addr"], fmt.Sprintf(":%d", r.srv.GetListenPort()))
 		r.waitMore(vC19Window)
 	case "UserData":
@@ -352,7 +387,7 @@ func (r *vC19Run) step(a string) map[string]interface{} {
 	case "Tick":
 		r.waitMore(vC19Window)
 	case "Stop":
-		if r.srv != nil && !r.stopped {
+		if r.srv != nil && r.started && !r.stopped {
 			if err := r.srv.Stop(); err != nil {
 				obs["err"] = err.Error()
 			}
@@ -415,7 +450,7 @@ func TestVerifC19Server(t *testing.T) {
 					st = r.state()
 					put(map[string]interface{}{"a": vStr(s, "a"), "t": b.ID, "route": r.route, "st": st, "obs": obs})
 				}
-				if r.srv != nil && !r.stopped {
+				if r.srv != nil && r.started && !r.stopped {
 					r.srv.Stop()
 				}
 				outMu.Lock()
